@@ -227,6 +227,16 @@ def entries(pym, seed, thorough=False):
             add('SystemOfEquations', dict(n=n2, npre=npre, nrhs=nrhs),
                 lambda si, so, free=free, pre=pre: pym.SystemOfEquations(si, so, free=free, prescribed=pre), [K, bf, xp], nout=2,
                 dirs=lambda r, bf=bf, xp=xp: [kdirs(r), r.standard_normal(bf.shape), r.standard_normal(xp.shape)], linear=[[1, 2]])
+        # non-symmetric and dense system matrices (fix F17/F18)
+        Kn = rng.standard_normal((n2, n2)) + n2 * np.eye(n2)
+        for dense_ in (True, False):
+            Kin = Kn.copy() if dense_ else sps.csc_matrix(Kn)
+            bf = rng.standard_normal(len(free))
+            xp = rng.standard_normal(len(pre))
+            add('SystemOfEquations', dict(n=n2, npre=npre, kind='non-symmetric ' + ('dense' if dense_ else 'sparse')),
+                lambda si, so, free=free, pre=pre: pym.SystemOfEquations(si, so, free=free, prescribed=pre), [Kin, bf, xp], nout=2,
+                dirs=lambda r, bf=bf, xp=xp, dense_=dense_: [(lambda D: D if dense_ else sps.csc_matrix(D))(r.standard_normal((n2, n2))),
+                                                            r.standard_normal(bf.shape), r.standard_normal(xp.shape)], linear=[[1, 2]])
         nm = int(rng.integers(1, n2 - 1))
         main, rest = np.sort(perm[:nm]), np.sort(perm[nm:])
         add('StaticCondensation', dict(n=n2, nmain=nm),
